@@ -145,6 +145,19 @@ pub enum Edit {
     Truncate { len: usize },
 }
 
+/// one step in the life of a generator table (BulletproofGens)
+#[derive(Serialize, Deserialize, Clone, Debug, PartialEq)]
+#[serde(tag = "g", rename_all = "lowercase")]
+pub enum GOp {
+    New { cap: usize, parties: usize },
+    Inc { cap: usize },
+    /// serialise + deserialise
+    Ser,
+    Clone,
+    /// aggregated view G(n, m) / H(n, m); kind = "G" | "H"
+    View { kind: String, n: usize, m: usize },
+}
+
 #[derive(Serialize, Deserialize, Clone, Debug, Default, PartialEq)]
 pub struct Side {
     #[serde(default = "dflt_label")]
@@ -160,6 +173,9 @@ pub struct Side {
     pub cap: usize,
     #[serde(default)]
     pub pc: PcSpec,
+    /// history of the generator table handed to prove / verify; empty: BulletproofGens::new(cap, 1)
+    #[serde(default, skip_serializing_if = "Vec::is_empty")]
+    pub gh: Vec<GOp>,
 }
 fn dflt_label() -> String {
     "verif".to_string()
@@ -192,6 +208,27 @@ pub struct Program {
     /// the verifier side is not compared (the prover side ended with an error a gadget would propagate)
     #[serde(default)]
     pub vskip: bool,
+    /// byte-level session: record the encoding as a token stream, tamper on bytes, record what the decoder is given and returns
+    #[serde(default)]
+    pub bytes: bool,
+    /// byte-level tampering of the encoding (session runs): applied after `tamper`
+    #[serde(default, skip_serializing_if = "Vec::is_empty")]
+    pub btamper: Vec<BEdit>,
+}
+
+#[derive(Serialize, Deserialize, Clone, Debug, PartialEq)]
+#[serde(tag = "how", rename_all = "lowercase")]
+pub enum BEdit {
+    /// keep the first `len` bytes
+    Truncate { len: usize },
+    /// flip bit `bit`
+    Bitflip { bit: usize },
+    /// overwrite token number `tok` (0-based, in the layout of the unmodified encoding) with 0xff bytes
+    Ffs { tok: usize },
+    /// overwrite the L (which = 0) or R (which = 1) count with `val`
+    Count { which: usize, val: u64 },
+    /// append `n` zero bytes
+    Trail { n: usize },
 }
 
 impl Program {
